@@ -278,7 +278,7 @@ func c21FamSharedNT(r *rand.Rand, name string, comment bool) string {
 		switch {
 		case own == "":
 			body = "H"
-		case r.Intn(2) == 0:
+		case r.Intn(5) != 0: // H first: the merged field starts from the CACHED field of H
 			body = fmt.Sprintf("(H | %s)", own)
 		default:
 			body = fmt.Sprintf("(%s | H)", own)
